@@ -279,7 +279,7 @@ def check_case(case, res=None):
 
 
 def plan(tier):
-    return [{"n": 400, "depth": 3}] * 16 if tier == "quick" else [{"n": 12000, "depth": 3}] * 32 + [{"n": 4000, "depth": 5}] * 16
+    return [{"n": 400, "depth": 3}] * 16 if tier == "quick" else [{"n": 8000, "depth": 3}] * 32 + [{"n": 2500, "depth": 5}] * 16
 
 
 def run_shard(spec, seed, res, only_bucket=None):
